@@ -74,7 +74,13 @@ class C13(Property):
         "a sequence never has 10^4300 or more members (int() digit limit)",
     ]
     level_text = "proof"
-    level_note = ""
+    level_note = (
+        "Proved in Lean: find(start, fq_name(pos), strict or not, single or not) = pos for every tree, every start and "
+        "every position that is PathOK (find_fq, find_one_fq; PathOK follows from spec B's `addressable` plus the "
+        "library's tree invariants, find_fq_addressable), including the tokenizer on the emitted path "
+        "(tokenize_fqName) and int(str(i)) = i (pyInt_natStr); the unrestricted law is refuted for the code as it is "
+        "by two witnesses (C13_full_fails: field named '', C13_full_fails_backslash: field named 'a\\.b'). Tied to "
+        "the code by correspondence: fq_name()/find() of every element of random and exhaustively enumerated trees.")
     technique = "Lean 4 model + inverse-law proof; differential correspondence; exhaustive two-level names"
     exhaustive_note = ""
     quick_n = 25000
